@@ -84,7 +84,10 @@ _LOOSE = {"on": False}   # format()/interpolate() raise Python's own ValueError 
 
 
 def _same_exc(e, cls, token):
-    return type(e) is cls and (_LOOSE["on"] or e.args[:1] == (token,))
+    # token: one token, or (a row with several failing cells: the statement says "the exception surfaces", not which of
+    # them) a tuple of tokens any of which may be the one
+    toks = token if isinstance(token, tuple) else (token,)
+    return type(e) is cls and (_LOOSE["on"] or any(e.args[:1] == (t,) for t in toks))
 
 
 def _surfaced(e, cls, token):
@@ -215,7 +218,9 @@ def check(case, ctx):
                         continue
                     if f in fields and t in failing:
                         if policy is True:
-                            stop = t
+                            # every failing converted cell of this row is a candidate
+                            stop = tuple(_tok(r, g) for g in outfields if g in fields and _tok(r, g) in failing
+                                         and not (r in short and g >= short[r]))
                             break
                         cells.append(("EXC", t) if policy == "inline" else ("VAL", chain_ev.get(f, errorvalue)))
                     elif f in fields:
